@@ -319,12 +319,16 @@ Section CharLexer.
       end
     end.
 
+  (** [![class]]: succeeds at the end of the input and before a character outside the class *)
+  Definition char_not (cls : cclass) (s : str) : bool :=
+    match s with c :: _ => negb (in_class cls c) | [] => true end.
+
   Definition char_lexer : lexer str := {|
     lx_size := @length char;
     lx_empty := fun s => match s with [] => true | _ => false end;
     lx_ws := skip_ws;
     lx_tok := drop_prefix;
-    lx_not := fun cls s => match s with c :: _ => negb (in_class cls c) | [] => true end;
+    lx_not := char_not;
     lx_lvalue := lvalue;
     lx_number := literal_number cfg
   |}.
